@@ -52,6 +52,10 @@ func main() {
 			fmt.Println("LOAD ERROR:", err)
 			os.Exit(2)
 		}
+		if strings.HasPrefix(*dump, "chanops:") {
+			dumpChanOps(p, strings.TrimPrefix(*dump, "chanops:"))
+			return
+		}
 		parts := strings.SplitN(*dump, ":", 2)
 		fn := p.Fn(parts[0], parts[1])
 		if fn == nil {
